@@ -2,10 +2,12 @@ SPECIFICATION Spec
 CONSTANTS
     N = 4
     K = 1
-    NanIsError = TRUE
+    Variant = "current"
 INVARIANT PivotsAreMinorRatios
 INVARIANT FactorsExact
 INVARIANT SpdAccepted
 INVARIANT ErrorClause
+INVARIANT OkIsFinite
 INVARIANT DefectExtent
+INVARIANT Replay
 CHECK_DEADLOCK FALSE
